@@ -1,11 +1,12 @@
-\* C05 leg A (endpoint set) thorough: 2 endpoints, 3 advertisements, timeout 2, any number of rounds; every 3rd
-\* two-round scenario over 2 endpoints to the harness
+\* C05 leg A (endpoint set) thorough: 1 endpoint (endpoints do not interact in Update), 3 advertisements, timeout 8,
+\* any number of rounds of arbitrary environment change + clock step 1 or 8; every 10th two-round scenario over 2
+\* endpoints to the harness
 SPECIFICATION Spec
-CONSTANTS NEps = 2
-          T = 2
+CONSTANTS NEps = 1
+          T = 8
           MaxRounds = 0
           CaseEps = 2
-          CaseStride = 3
+          CaseStride = 10
 INVARIANTS C05_OfferedAndFresh C05_UpStoresContacted C05_UnhealthyNotOffered C05_TimedOutDropped
 VIEW View
 CHECK_DEADLOCK FALSE
